@@ -172,6 +172,14 @@ func (w *World) BuildTx(op TxOp, v TxView, seq int) (*BuiltTx, error) {
 	case "escrow":
 		tx = staking.NewAddEscrowTx(nonce, fee, &staking.Escrow{Account: to, Amount: resolveAmount(op.Amt, bal, minDeleg)})
 	case "reclaim":
+		if op.From%w.NumSigners() < w.K.Anchors {
+			// Documented precondition of C10: the anchor validators stay staked. Anchor
+			// entities never reclaim from their own escrow account.
+			for op.To%w.NumSigners() < w.K.Anchors {
+				op.To++
+			}
+			to = w.Addr(op.To)
+		}
 		shares := quantity.NewQuantity()
 		if toAcct := v.Account(to); toAcct != nil {
 			shares = toAcct.Escrow.Active.TotalShares.Clone()
@@ -200,6 +208,9 @@ func (w *World) BuildTx(op TxOp, v TxView, seq int) (*BuiltTx, error) {
 		id := uint64(op.Arg)
 		if len(ids) > 0 {
 			id = ids[op.Arg%len(ids)]
+			if op.Arg >= 1000 {
+				id = ids[len(ids)-1] // the most recent proposal
+			}
 		}
 		tx = governance.NewCastVoteTx(nonce, fee, &governance.ProposalVote{ID: id, Vote: governance.Vote(1 + op.To%3)})
 	case "regnode":
